@@ -314,6 +314,18 @@ func RandomModel(r *rand.Rand, o ModelOpts) *Model {
 	}
 	for i := 0; i < nPES; i++ {
 		p := pickPID(r, used)
+		// an elementary PID that differs from a PMT PID (or from PID 0) in one bit only: whatever tells table PIDs from the others
+		// (a map, a bitmap, a comparison) must tell these two apart
+		if r.IntN(3) == 0 {
+			base := uint16(0)
+			if len(m.PMTs) > 0 && r.IntN(4) != 0 {
+				base = m.PMTs[r.IntN(len(m.PMTs))]
+			}
+			if q := base ^ 1<<uint(r.IntN(13)); q >= 0x20 && q < 0x1fff && !(q >= 0x1f00 && q <= 0x1fef) && !used[q] {
+				delete(used, p)
+				p, used[q] = q, true
+			}
+		}
 		nu := 1 + r.IntN(o.MaxUnits)
 		tsc := uint8(0)
 		if o.Scrambled && r.IntN(2) == 0 {
